@@ -1262,12 +1262,31 @@ def process_li_tokens(tokens):
 fix_li_tags.need_walker = False
 
 
+# bodies of <ref>, <poem> and gallery lines are expanded and parsed by a nested parse_txt call;
+# a template that includes itself inside such a tag would nest these calls without end
+MAX_NESTED_PARSES = 6
+
+
 def parse_txt(txt, xopts=None, **kwargs):
     if xopts is None:
         xopts = XBunch(**kwargs)
     else:
         xopts.__dict__.update(**kwargs)
 
+    depth = xopts.parse_depth or 0
+    if depth >= MAX_NESTED_PARSES:
+        # give up expanding: show the source of what is left
+        if xopts.uniquifier is not None:
+            txt = xopts.uniquifier.replace_uniq(txt)
+        return [Token(type=Token.t_text, text=txt)]
+    xopts.parse_depth = depth + 1
+    try:
+        return _parse_txt(txt, xopts)
+    finally:
+        xopts.parse_depth = depth
+
+
+def _parse_txt(txt, xopts):
     if xopts.expander is None:
         from mwlib.parser.expander import DictDB, Expander
 
